@@ -337,7 +337,7 @@ func Eq(a, b *Term) *Term {
 		}
 	}
 	// push equality with a constant through ite whose branches are constants (keeps terms small)
-	if b.IsConst() && a.op == "ite" && (a.args[1].IsConst() || a.args[2].IsConst()) {
+	if b.IsConst() && a.op == "ite" && constLeaves(a) {
 		k := [3]int{0, a.id, b.id}
 		if r, ok := pushMemo[k]; ok {
 			return r
@@ -346,7 +346,7 @@ func Eq(a, b *Term) *Term {
 		pushMemo[k] = r
 		return r
 	}
-	if a.IsConst() && b.op == "ite" && (b.args[1].IsConst() || b.args[2].IsConst()) {
+	if a.IsConst() && b.op == "ite" && constLeaves(b) {
 		return Eq(b, a)
 	}
 	if a.id > b.id {
@@ -522,7 +522,7 @@ symbolic:
 		a, b = b, a
 	}
 	// distribute add-constant over ite with a constant branch (keeps counters concrete-ish)
-	if op == "bvadd" && b.IsConst() && a.op == "ite" && (a.args[1].IsConst() || a.args[2].IsConst()) {
+	if op == "bvadd" && b.IsConst() && a.op == "ite" && constLeaves(a) {
 		k := [3]int{20, a.id, b.id}
 		if r, ok := pushMemo[k]; ok {
 			return r
@@ -583,7 +583,7 @@ func BVCmp(op string, a, b *Term) *Term {
 		}
 	}
 	opk := map[string]int{"bvult": 1, "bvule": 2, "bvslt": 3, "bvsle": 4}[op]
-	if a.op == "ite" && b.IsConst() && (a.args[1].IsConst() || a.args[2].IsConst()) {
+	if a.op == "ite" && b.IsConst() && constLeaves(a) {
 		k := [3]int{opk, a.id, b.id}
 		if r, ok := pushMemo[k]; ok {
 			return r
@@ -592,7 +592,7 @@ func BVCmp(op string, a, b *Term) *Term {
 		pushMemo[k] = r
 		return r
 	}
-	if b.op == "ite" && a.IsConst() && (b.args[1].IsConst() || b.args[2].IsConst()) {
+	if b.op == "ite" && a.IsConst() && constLeaves(b) {
 		k := [3]int{opk + 10, a.id, b.id}
 		if r, ok := pushMemo[k]; ok {
 			return r
@@ -633,7 +633,7 @@ func BVResize(a *Term, w int, signed bool) *Term {
 		}
 		return BVCBig(new(big.Int).Set(a.ival), w)
 	}
-	if a.op == "ite" && (a.args[1].IsConst() || a.args[2].IsConst()) {
+	if a.op == "ite" && constLeaves(a) {
 		sg := 0
 		if signed {
 			sg = 1
@@ -856,4 +856,22 @@ func termNonNeg1(t *Term) bool {
 		return termNonNeg(t.args[0]) && termNonNeg(t.args[1])
 	}
 	return false
+}
+
+// constLeaves: t is an ite tree all of whose leaves are constants (memoised).
+var constLeafMemo = map[*Term]bool{}
+
+func constLeaves(t *Term) bool {
+	if t.op == "const" {
+		return true
+	}
+	if t.op != "ite" {
+		return false
+	}
+	if r, ok := constLeafMemo[t]; ok {
+		return r
+	}
+	r := constLeaves(t.args[1]) && constLeaves(t.args[2])
+	constLeafMemo[t] = r
+	return r
 }
